@@ -137,6 +137,7 @@ func runC02(c *core.Ctx) {
 		idpInit  bool   // SP configured with AllowIDPInitiated (the windows must hold regardless)
 		noDest   bool   // Response without Destination (allowed when the Response itself is unsigned)
 		method   string // SubjectConfirmation Method of the varied confirmation ("" = bearer): the window holds for every confirmation
+		scdMore  string // further optional attributes on the varied confirmation's data: "notbefore" (an hour ago: satisfied), "address", "both"
 		hooks    bool   // SP with the application hooks installed (ValidateAudienceRestriction, ValidateRequestID: both accept): they replace the audience / request-ID decisions, not the time windows
 	}
 	build := func(s spec, t tol) ([]byte, string) {
@@ -162,6 +163,13 @@ func runC02(c *core.Ctx) {
 			varied.Method = s.method
 		}
 		good := a.Confirmations[0]
+		if s.scdMore == "notbefore" || s.scdMore == "both" {
+			varied.NotBefore = samlgen.S(std(now.Add(-time.Hour)))
+		}
+		if s.scdMore == "address" || s.scdMore == "both" {
+			varied.Address = samlgen.S("192.0.2.7")
+		}
+		good = a.Confirmations[0]
 		good.NotOnOrAfter = samlgen.S(std(instantAt(kSCD, posFarIn, now, t)))
 		switch s.confs {
 		case 0: // a Subject without any SubjectConfirmation: the other four windows are all there is
@@ -214,7 +222,7 @@ func runC02(c *core.Ctx) {
 		if v == core.MustAccept && (s.method != "" && s.confs == 1 || s.confs == 0) {
 			v = core.DontCare // no obligation to accept an assertion without any bearer confirmation
 		}
-		if !allFar || s.form != nil || s.second || s.confs != 1 || s.idpInit || s.noDest || s.method != "" || s.hooks {
+		if !allFar || s.form != nil || s.second || s.confs != 1 || s.idpInit || s.noDest || s.method != "" || s.hooks || s.scdMore != "" {
 			t.NonTrivial()
 		}
 		t.Outcome(harness.ErrClass(err))
@@ -274,17 +282,20 @@ func runC02(c *core.Ctx) {
 				lay             harness.Layout
 				method          string
 				hooks           bool
-			}{{"hooks/R", false, false, harness.Layout{SignResponse: true}, "", true}, {"hooks/A", false, false, harness.Layout{SignAssertion: true}, "", true}, {"idpinit/R", true, false, harness.Layout{SignResponse: true}, "", false}, {"idpinit/A", true, false, harness.Layout{SignAssertion: true}, "", false},
-				{"nodest/A", false, true, harness.Layout{SignAssertion: true}, "", false}, {"idpinit+nodest/A", true, true, harness.Layout{SignAssertion: true}, "", false},
-				{"holder-of-key/R", false, false, harness.Layout{SignResponse: true}, "urn:oasis:names:tc:SAML:2.0:cm:holder-of-key", false},
-				{"sender-vouches/A", false, false, harness.Layout{SignAssertion: true}, "urn:oasis:names:tc:SAML:2.0:cm:sender-vouches", false}} {
+				scdMore         string
+			}{{"scd-notbefore/R", false, false, harness.Layout{SignResponse: true}, "", false, "notbefore"}, {"scd-notbefore/A", false, false, harness.Layout{SignAssertion: true}, "", false, "notbefore"},
+				{"scd-address/A", false, false, harness.Layout{SignAssertion: true}, "", false, "address"}, {"scd-notbefore+address/R", false, false, harness.Layout{SignResponse: true}, "", false, "both"},
+				{"hooks/R", false, false, harness.Layout{SignResponse: true}, "", true, ""}, {"hooks/A", false, false, harness.Layout{SignAssertion: true}, "", true, ""}, {"idpinit/R", true, false, harness.Layout{SignResponse: true}, "", false, ""}, {"idpinit/A", true, false, harness.Layout{SignAssertion: true}, "", false, ""},
+				{"nodest/A", false, true, harness.Layout{SignAssertion: true}, "", false, ""}, {"idpinit+nodest/A", true, true, harness.Layout{SignAssertion: true}, "", false, ""},
+				{"holder-of-key/R", false, false, harness.Layout{SignResponse: true}, "urn:oasis:names:tc:SAML:2.0:cm:holder-of-key", false, ""},
+				{"sender-vouches/A", false, false, harness.Layout{SignAssertion: true}, "urn:oasis:names:tc:SAML:2.0:cm:sender-vouches", false, ""}} {
 				for _, confs := range []int{0, 1, 2, 3} {
-					if opt.method == "" && confs == 2 || confs == 0 && (opt.method != "" || opt.idpInit || opt.noDest) {
+					if opt.method == "" && confs == 2 || confs == 0 && (opt.method != "" || opt.idpInit || opt.noDest || opt.scdMore != "") {
 						continue
 					}
 					key := fmt.Sprintf("opt=%s/tol=%s/resp=%s/ass=%s/nb=%s/nooa=%s/scd=%s/confs=%d", opt.name, tl.name,
 						posNames[pos[0]], posNames[pos[1]], posNames[pos[2]], posNames[pos[3]], posNames[pos[4]], confs)
-					s := spec{pos: pos, confs: confs, lay: opt.lay, idpInit: opt.idpInit, noDest: opt.noDest, method: opt.method, hooks: opt.hooks}
+					s := spec{pos: pos, confs: confs, lay: opt.lay, idpInit: opt.idpInit, noDest: opt.noDest, method: opt.method, hooks: opt.hooks, scdMore: opt.scdMore}
 					tl := tl
 					c.Case(key, func(t *core.T) { runOne(t, s, tl, key) })
 				}
